@@ -79,6 +79,12 @@ func (details *PersonDetails) parseData(node tlv.TlvNode) error {
 	seen := make(map[tlv.TlvTag]bool, len(tagList))
 
 	for _, tag := range tagList {
+		// the other-names element may be listed by its template tag (A0), by the tag of the repeated element
+		// (5F0F) or by both: it is one element, read by one handler
+		if tag == 0xA0 {
+			tag = 0x5F0F
+		}
+
 		if seen[tag] {
 			continue
 		}
